@@ -365,10 +365,30 @@ def check_case(case, ev):
             raise Violation("c08.bind_changes_others", f"bind({n}): required {sp.required} -> {gb.inputs.required}")
         if _spec_of(gb.unbind(n)) != before:
             raise Violation("c08.unbind_not_inverse", f"bind({n}).unbind({n}) gives {_spec_of(gb.unbind(n))}, before {before}")
+        # ... and unbinding on the DERIVED graph leaves the bound graph bound: a further derivation of it still has the binding
+        if gb.outputs:
+            o = list(gb.outputs)[0]
+            try:
+                fresh, again = _spec_of(g.bind(**{n: TYPED.get(n, ("b2", n))}).select(o)), _spec_of(gb.select(o))
+            except Exception:  # noqa: BLE001 - selection rejected for this configuration: nothing to compare
+                fresh = again = None
+            if fresh != again:
+                raise Violation("c08.unbind_changed_source", f"after bind({n}) -> unbind({n}) on the derived graph, bound_graph.select({o}) reports {again}; a freshly bound graph reports {fresh}")
         if _spec_of(g) != before:
             raise Violation("c08.receiver_changed", f"spec of receiver changed by bind/unbind: {before} -> {_spec_of(g)}")
     # ---- (a) sufficiency, (b) necessity
     vals, kw, ok = _check_sufficiency(g, ctx, case["ep_pick"], "run", ev, shape=shape)
+    if ok and kind == "nestscope":
+        # a gate-free program whose required inputs are supplied: every node in scope runs (optional names fall back to their
+        # default or to the binding made inside the nested graph, which the spec itself reports as the fallback)
+        ran = {f for f, _ in ctx.log}
+        expect_ran = set()
+        for x in case["nodes"]:
+            if x["name"] in r_active:
+                expect_ran |= {y["name"] for y in x["graph"]["nodes"]} if x["k"] == "graph" else {x["name"]}
+        idle = sorted(expect_ran - ran)
+        if idle:
+            raise Violation("c08.accepted_but_idle", f"[run] supplying exactly the required inputs {J(vals)} was accepted but nodes {idle} never ran although every input they take is required-and-given, defaulted or bound (reported optional={sorted(opt)} bound={sorted(sp.bound)})")
     nomit = 0
     if ok:
         nomit = _check_necessity(g, ctx, vals, kw, "run")
